@@ -98,7 +98,7 @@ def run(ctx):
     ctx.notes['local_problems_observed'] = sum(1 for tr in traces for r in tr if r['ev'] == 'local')
     for tr in traces[::max(1, len(traces) // 4)]:
         ctx.sample(tr[:4] + tr[-1:])
-    bad = validate_chunks(ctx, 'TraceSweep', 'ts10', traces, chunk=ctx.pick(20, 300))
+    bad = validate_chunks(ctx, 'TraceSweep', 'ts10', traces, chunk=ctx.pick(20, 300), relax=sweepgen.relax)
     for idx, why in sorted(bad.items())[:40]:
         clause = why[0][2] if why and len(why[0]) > 2 else 'rejected'
         ctx.violation(f'dmrg:{cases[idx]["alg"]}:{clause[:70]}', f'{cases[idx]}: record {why[0][0] if why else "?"}: {clause}', dict(case=cases[idx]))
